@@ -257,6 +257,19 @@ def model_spec(draw, prof=None):
             c['self_solve'] = draw(st.sampled_from(['methods', 'solvers']))
             if c['style'] == 'matfree':
                 c['style'] = 'dense'
+        if c['style'] == 'sparse' and len(c['outputs']) >= 2 and c['inputs'] and chance(draw, 0.5):
+            # an (output variable, input variable) pair without any dependence: with sparse partials it is not declared
+            # at all, so that output reaches that input only through the other outputs (implicit components) or not at
+            # all - the relevance graph has to get this right
+            osz = [int(np.prod(v['shape'])) for v in c['outputs']]
+            isz = [int(np.prod(v['shape'])) for v in c['inputs']]
+            oi = draw(st.integers(0, len(osz) - 1))
+            ii = draw(st.integers(0, len(isz) - 1))
+            r0, c0 = sum(osz[:oi]), sum(isz[:ii])
+            for key in ('A', 'B'):
+                M2 = np.array(c[key], dtype=int).reshape(nout, nin)
+                M2[r0:r0 + osz[oi], c0:c0 + isz[ii]] = 0
+                c[key] = [int(v) for v in M2.ravel()]
         if prof['out_scaling']:
             # every top-level branch of the model has a scaling flavour: several code paths test the group-wide flags
             # _has_output_scaling / _has_resid_scaling, so a group in which ONLY residuals (or only ref, or only ref0)
